@@ -28,7 +28,7 @@ CHECKS = {
         note="intraprocedural; guards matched by dominance of an ordering comparison on the same value class (under-approximate once any comparison is seen)",
         ref="DESIGN.md section 3 C01"),
     "C09": dict(
-        technique="must-pass-through rules on MIR for the carry-over buffer and the consumed-byte contract, plus the shared container/EOF classification rules",
+        technique="must-pass-through rules on MIR for the carry-over buffer and the consumed-byte contract, plus the shared container/EOF classification rules; must-pass-through of the tail move between a feed_bytes call and the next read in the library's own read loops",
         text="Claimed narrowly: the plumbing that makes a chunk boundary invisible (each a necessary condition): the public feed functions "
              "return the parser's consumed-byte count; the frame loader re-stores the unconsumed remainder on every successful exit after "
              "it consumed bytes; the box-header parser is prefix-closed; aux boxes are finalised at end of input; end-of-data is classified "
@@ -36,7 +36,7 @@ CHECKS = {
         note="shares R-CONSUMED/R-BOXHDR/R-AUXBOX with C10 and R-EOF-* with C11; intraprocedural",
         ref="DESIGN.md section 8.6"),
     "C10": dict(
-        technique="typestate transition-table extraction from MIR and comparison with the container-format reference; guard reconstruction; constant-propagating walk of the header parser's decision tree; must-pass-through",
+        technique="typestate transition-table extraction from MIR and comparison with the container-format reference; guard reconstruction; constant-propagating walk of the header parser's decision tree; must-pass-through (consumed counter; tail move after feed_bytes in the read loops)",
         text="Decides the rejection clause and the size arithmetic for all layouts and chunkings: the jxlc/jxlp transition table equals "
              "the reference (duplicate/out-of-order/late codestream boxes -> error), undersized jxlp/brob boxes and compressed reserved "
              "types are rejected before the unchecked subtractions, the header parser is prefix-closed for the 64-bit size marker, and the "
@@ -59,14 +59,14 @@ CHECKS = {
         note="x86_64 only; trusts rustc's target-feature tables and std_detect's meaning of a feature name",
         ref="DESIGN.md section 3 C02"),
     "C05": dict(
-        technique="ordering / control-dependence rules on MIR of the slot bookkeeping + decision-table extraction of the gating predicates by abstract evaluation of MIR over a finite abstraction; data-dependence of per-channel blend sources on the loop item; forward data flow from the alpha-channel index (the alpha plane is converted with its own bit depth; its region is consulted); registry of repair guards in blend() / patch()",
+        technique="ordering / control-dependence rules on MIR of the slot bookkeeping + decision-table extraction of the gating predicates by abstract evaluation of MIR over a finite abstraction; data-dependence of per-channel blend sources on the loop item; forward data flow from the alpha-channel index, followed into applied closures (the alpha plane is converted with its own bit depth; the region list of every grid an alpha plane is taken from is read at that index); call-graph reachability for oriented dimensions; registry of repair guards in blend() / patch()",
         text="Claimed narrowly: which reference slot a frame reads and which it is saved into. A frame's sources are read before its own "
              "save; saves are control-dependent on can_reference()/lf_level; the per-frame vectors stay index-aligned; and the complete "
              "decision tables of can_reference/is_keyframe/frame-type helpers equal the format's rules. Does not decide the blend arithmetic.",
         note="reference decision tables transcribed from ISO/IEC 18181-1; abstraction: duration {0,1,1000}, save_as_reference 0..3",
         ref="DESIGN.md section 3 C05"),
     "C06": dict(
-        technique="must-pass-through and loop-iteration path rules on MIR (cache invalidation); constant propagation over MIR (header field, enum discriminant and const-generic parameters fixed) comparing filter padding with the reach read from the kernel offset tables; path rule on the cache-hit exit of RenderedImage::blend (requested region must take part); registry of repair guards",
+        technique="must-pass-through and loop-iteration path rules on MIR (cache invalidation); constant propagation over MIR (header field, enum discriminant and const-generic parameters fixed) comparing filter padding with the reach read from the kernel offset tables; data flow of the base grid's region list into Region::intersection in blend(); registry of repair guards",
         text="Claimed narrowly: region changes always invalidate. Every store to the requested region reaches reset_cache; reset_cache "
              "clears the loading caches and replaces the handle of every non-ReferenceOnly frame by a fresh handle built for the new "
              "region. Necessary for history-independence of region requests; does not decide padding arithmetic.",
@@ -80,14 +80,14 @@ CHECKS = {
         note="trusts rustc's capture analysis and callee resolution; rayon itself is trusted",
         ref="DESIGN.md section 3 C07"),
     "C13": dict(
-        technique="field-access census + atomic-operation typing + closure-body shape + ownership (drop of handle temporaries) on MIR",
+        technique="field-access census + atomic-operation typing + closure-body shape + ownership (drop of handle temporaries) on MIR; dominance ordering of tracker charge before allocation",
         text="Decides the budget arithmetic for every interleaving: bytes_left is only changed by fetch_update(checked_sub) and "
              "fetch_add of exactly the amount recorded in the handle; handles cannot be forged, are not dropped as temporaries, are not "
              "leaked, and exhaustion is never unwrapped. Does not decide untracked allocations or Arc cycles.",
         note="trusts std atomics; count*size_of wrap in release is bounded by C01 limits, not re-proved",
         ref="DESIGN.md section 3 C13"),
     "C14": dict(
-        technique="read-layout reconstruction from MIR of every header parser (primitive, distribution constants, field binding, controlling conditions) compared with a table reviewed against the specification; decision-table extraction of canvas predicates by abstract evaluation",
+        technique="read-layout reconstruction from MIR of every header parser (primitive, distribution constants, field binding, controlling conditions) compared with a table reviewed against the specification; decision-table extraction of canvas predicates by abstract evaluation; index-provenance agreement of the parallel gathers in the permuted table of contents",
         text="Decides the layout half: for 30 header parsers (160 reads) the order, primitive, distribution, field binding and condition of "
              "every bitstream read equal the reviewed table, so a changed distribution, dropped/reordered field or altered presence "
              "condition is reported with the first differing read; the canvas predicates gating blending fields equal their definition on "
@@ -95,7 +95,7 @@ CHECKS = {
         note="19 of 30 tables were compared by hand with ISO/IEC 18181-1 (listed in tools/gen_bitspec.py), the others are snapshots marked reviewed=false",
         ref="DESIGN.md section 3 C14"),
     "C15": dict(
-        technique="symbolic affine evaluation of MIR (abstract interpretation over {x,y,w,h,1}) of the three orientation maps, coefficient comparison; control-dependence / must-pass-through for channel order; interval analysis of the operands of narrowing casts in the integer output conversions",
+        technique="symbolic affine evaluation of MIR (abstract interpretation over {x,y,w,h,1}) of the three orientation maps, coefficient comparison; control-dependence / must-pass-through for channel order; interval analysis of the operands of narrowing casts in the integer output conversions; call-graph reachability (oriented-dimension accessors unreachable from codestream-coordinate code)",
         text="Decides the coordinate-map half for all sizes and coordinates: for each of the eight orientations the maps in "
              "FrameBuffer::from_grids, ImageStream::to_original_coord and ImageMetadata::apply_orientation (forward and inverse) equal the "
              "EXIF definition, are mutually inverse and agree on the dimension swap; stream channels are pushed colour, black (cmyk only), "
